@@ -466,3 +466,32 @@ def render_fmt(m, st, fa):
 @contract(r'^(std|alloc|core)::fmt::format$', 2)
 def c_fmt_format(m, st, f, a):
     return render_fmt(m, st, a[0])
+
+
+# ---------------------------------------------------------------------------------------------- io::Write (recording, fallible)
+class WriterV:
+    """a std::io::Write that accepts `limit` bytes in total (None = unlimited) and then fails every write"""
+    rtype = 'Writer'
+
+    def __init__(self, limit=None): self.limit, self.buf, self.failed = limit, [], False
+
+    def clone_with(self, cl):
+        w = WriterV(self.limit); w.buf = list(self.buf); w.failed = self.failed; return w
+
+
+@contract(r'^<.* as (std::io::)?Write>::write_all$', 2)
+def c_write_all(m, st, f, a):
+    w = sv(a[0])
+    if not isinstance(w, WriterV): return NotImplemented
+    x = sv(a[1])
+    bs = list(x.bytes()) if isinstance(x, StrV) else [b.e for b in x.f]
+    if w.failed: return err(Opaque('io::Error', 'writer failed'))
+    if w.limit is None:
+        w.buf.extend(bs); return ok(UNIT)
+    room = binop('Sub', w.limit, IntV(len(w.buf), 'usize'))
+    fits = binop('Ge', w.limit, IntV(len(w.buf) + len(bs), 'usize'))
+    if bool_val(m, st, fits):
+        w.buf.extend(bs); return ok(UNIT)
+    k = m.concretize(st, room, range(0, len(bs)))
+    w.buf.extend(bs[:k]); w.failed = True
+    return err(Opaque('io::Error', 'writer failed'))
